@@ -130,13 +130,6 @@ impl Park {
         }
     }
 
-    #[inline]
-    fn fast_wake_up(&self) {
-        if let Some(co) = self.wait_co.take() {
-            run_coroutine(co);
-        }
-    }
-
     /// park current coroutine with specified timeout
     /// if timeout happens, return Err(ParkError::Timeout)
     /// if cancellation detected, return Err(ParkError::Canceled)
@@ -210,7 +203,7 @@ impl EventSource for Park {
         let timeout_handle = dur.map(|dur| get_scheduler().add_timer(dur, self.wait_co.clone()));
         self.set_timeout_handle(timeout_handle);
 
-        let _g = self.delay_drop();
+        let g = self.delay_drop();
 
         // register the coroutine
         self.wait_co.store(co);
@@ -218,7 +211,11 @@ impl EventSource for Park {
         // if we were stalled for longer than the timeout the timer may have
         // fired already and found nothing to wake, do the timeout ourselves
         if deadline.is_some_and(|t| now() >= t) {
-            if let Some(mut co) = self.wait_co.take() {
+            let co = self.wait_co.take();
+            // the coroutine may finish and drop this park while it runs below,
+            // which waits for the kernel guard, so release it first
+            drop(g);
+            if let Some(mut co) = co {
                 set_co_para(&mut co, std::io::Error::new(ErrorKind::TimedOut, "timeout"));
                 run_coroutine(co);
             }
@@ -229,7 +226,14 @@ impl EventSource for Park {
         if self.state.load(Ordering::Acquire) {
             // here may have recursive call for subscribe
             // normally the recursion depth is not too deep
-            return self.fast_wake_up();
+            let co = self.wait_co.take();
+            // the coroutine may finish and drop this park while it runs below,
+            // which waits for the kernel guard, so release it first
+            drop(g);
+            if let Some(co) = co {
+                run_coroutine(co);
+            }
+            return;
         }
 
         // register the cancel data
